@@ -74,6 +74,15 @@ CLAIMED = {
             'prefixes); Huffman blocks, FDICT, gzip optional fields and checksum arithmetic outside the model; payload <=2 bytes in <=2 blocks '
             '(thorough 5), <=3 pieces (4).',
             'DESIGN.md 3/C19', 'payload bytes, cuts, truncation point, corrupted byte symbolic'),
+    'C17': ('other',
+            'Bounded symbolic verification of the real Command/Reply/ControlStream/Commander code over a fake connection: command '
+            'serialisation with a free symbolic argument string; every control-connection write during login/SIZE/RETR/MLSD/LIST for URLs '
+            'assembled from percent-encoded CR/LF/NUL/command-injection pieces in user, password and path; reply assembly for single and '
+            'multi-line replies (RFC 959 shapes incl. indented digit lines, LF-only, truncation at every line) with exact consumption; '
+            'transfer completion for every closing-reply code / missing reply / data error; PASV parsing.',
+            'Trusts harness/fakeconn.py (readline/read/write model); reply and URL texts come from pools enumerated by the solver; segmentation '
+            'invariance of the control stream reduces to asyncio StreamReader.readline (outside the claim).',
+            'DESIGN.md 3/C17', 'argument string symbolic; URL pieces, reply shapes, reply codes by symbolic index'),
 }
 
 NOT_APPLICABLE = {
@@ -83,7 +92,7 @@ NOT_APPLICABLE = {
 }
 
 PENDING = {k: 'claimed in DESIGN.md 3 but its check is not built yet at this commit' for k in
-           'C04 C05 C07 C08 C09 C10 C15 C16 C17 C20'.split()}
+           'C04 C05 C07 C08 C09 C10 C15 C16 C20'.split()}
 
 
 def main():
